@@ -5,6 +5,7 @@ import (
 	"context"
 	"fmt"
 	"net/http"
+	"os"
 	"runtime"
 	"strings"
 	"time"
@@ -35,7 +36,7 @@ type c10Case struct {
 	Markers   bool   `json:"filters_write_output"`
 	CustomRec bool   `json:"custom_recover_handler"`
 	RouteEnc  bool   `json:"encoding_via_route_override"`
-	Value     string `json:"panic_value"` // ptr | string | error | runtime | abort (http.ErrAbortHandler)
+	Value     string `json:"panic_value"` // ptr | string | error | runtime | abort (http.ErrAbortHandler) | nilerr | nilstringer | badstringer
 	Cancelled bool   `json:"request_context_already_cancelled"`
 }
 
@@ -48,6 +49,28 @@ type c10Env struct {
 	curPos  string
 	lastErr error
 	kind    string
+}
+
+// c10Stringer is a panic value whose String method cannot be called safely (nil receiver, or it panics itself).
+type c10Stringer struct {
+	bad  bool
+	text string
+}
+
+func (s *c10Stringer) String() string {
+	if s.bad {
+		panic("String() of the panic value panics")
+	}
+	return s.text // nil receiver: dereference
+}
+
+// hostileValue tells whether the panic value kind carries no "injected:<pos>" text the default recover handler could print.
+func hostileValue(kind string) bool {
+	switch kind {
+	case "runtime", "abort", "nilerr", "nilstringer", "badstringer":
+		return true
+	}
+	return false
 }
 
 // throw panics with a value of the configured kind.
@@ -63,6 +86,16 @@ func (e *c10Env) throw(pos string) {
 		m[pos] = 1 // assignment to entry in nil map
 	case "abort":
 		panic(http.ErrAbortHandler)
+	case "nilerr":
+		// the typed-nil gotcha: an error interface holding a nil pointer whose Error method dereferences its receiver
+		var pe *os.PathError
+		var err error = pe
+		panic(err)
+	case "nilstringer":
+		var st *c10Stringer
+		panic(st)
+	case "badstringer":
+		panic(&c10Stringer{bad: true})
 	}
 	panic(&c10Panic{e.curLog, pos})
 }
@@ -81,6 +114,15 @@ func (e *c10Env) sameValue(v interface{}, pos string) bool {
 		return ok
 	case "abort":
 		return v == http.ErrAbortHandler
+	case "nilerr":
+		pe, ok := v.(*os.PathError)
+		return ok && pe == nil
+	case "nilstringer":
+		st, ok := v.(*c10Stringer)
+		return ok && st == nil
+	case "badstringer":
+		st, ok := v.(*c10Stringer)
+		return ok && st != nil && st.bad
 	}
 	pv, ok := v.(*c10Panic)
 	return ok && pv.id == pos
@@ -241,7 +283,7 @@ var c10Stop bool
 func c10(ctx *core.Ctx) {
 	quietLogs()
 	c10Stop = false
-	ctx.Rule("crash points enumerated completely: panic in each of 2 container / 2 service / 2 route filters before and after passing control, in the handler before / between / after its writes, in an If-condition, and (routing-failure request) in container filters and the custom error handler; x recovery {on, off} x coding {none, gzip, deflate} (container switch or route override) x provider {sync.Pool, bounded(1), custom} x entry {Dispatch, ServeHTTP} x filters writing output or not x custom/default recover handler x panic value kind {pointer, string, error, runtime error, http.ErrAbortHandler} (value kinds on the sync.Pool / no-marker slice). Monitors: recover() around the entry, recording RecoverHandler, compressor ledger, probe requests replayed after every panic, Add+Remove afterwards (needs the write lock). Then sequences of 20 mixed panicking/normal requests per container. Non-trivial = every crash case; distinct by the full cell.")
+	ctx.Rule("crash points enumerated completely: panic in each of 2 container / 2 service / 2 route filters before and after passing control, in the handler before / between / after its writes, in an If-condition, and (routing-failure request) in container filters and the custom error handler; x recovery {on, off} x coding {none, gzip, deflate} (container switch or route override) x provider {sync.Pool, bounded(1), custom} x entry {Dispatch, ServeHTTP} x filters writing output or not x custom/default recover handler x panic value kind {pointer, string, error, runtime error, http.ErrAbortHandler, typed-nil error, typed-nil Stringer, Stringer whose String panics} (value kinds on the sync.Pool / no-marker slice). Monitors: recover() around the entry, recording RecoverHandler, compressor ledger, probe requests replayed after every panic, Add+Remove afterwards (needs the write lock). Then sequences of 20 mixed panicking/normal requests per container. Non-trivial = every crash case; distinct by the full cell.")
 	ctx.Assume("HandleWithFilter is excluded: the property speaks of routed dispatch",
 		"panic values are pointers so that 'the same value' is decided by identity")
 	defer func() {
@@ -269,7 +311,7 @@ func c10(ctx *core.Ctx) {
 										}
 										kinds := []string{"ptr"}
 										if !mk && prov == "syncpool" {
-											kinds = []string{"ptr", "string", "error", "runtime", "abort"}
+											kinds = []string{"ptr", "string", "error", "runtime", "abort", "nilerr", "nilstringer", "badstringer"}
 										}
 										for _, kind := range kinds {
 											cases = append(cases, c10Case{Pos: p, Routed: routed, Recovery: rec, Coding: cod, Provider: prov, Entry: entry, Markers: mk, CustomRec: cr, RouteEnc: re, Value: kind})
@@ -399,7 +441,7 @@ func c10One(ctx *core.Ctx, ci int, k *c10Case, seq []string) {
 						if !bytes.HasSuffix(pl, []byte("RECOVERED:injected:"+pos)) {
 							ctx.Violation(ci, "c10:recover-output-lost:"+pcell, fmt.Sprintf("output of the recover handler is missing from the response: %.80q", pl), d)
 						}
-					} else if !bytes.Contains(pl, []byte("recover from panic situation: - ")) || (k.Value != "runtime" && k.Value != "abort" && !bytes.Contains(pl, []byte("injected:"+pos))) {
+					} else if !bytes.Contains(pl, []byte("recover from panic situation: - ")) || (!hostileValue(k.Value) && !bytes.Contains(pl, []byte("injected:"+pos))) {
 						ctx.Violation(ci, "c10:default-recover-output:"+pcell, fmt.Sprintf("default recover text missing: %.80q", pl), d)
 					}
 					// nothing written before the panic => the recover handler's status
